@@ -578,6 +578,18 @@ def oracle_C10(objs, st=None):
         st.check('L_grad_grad_B = sqrt(4 B0/|grad grad B|)', reldiff(q.L_grad_grad_B, np.sqrt(4 * q.B0 / nrm)), 1e-12, cid)
         st.check('inverse scale length profile', reldiff(q.grad_grad_B_inverse_scale_length_vs_varphi, np.sqrt(nrm / (4 * q.B0))), 1e-12, cid)
         st.check('reported extremum is the grid maximum', abs(q.grad_grad_B_inverse_scale_length - np.max(q.grad_grad_B_inverse_scale_length_vs_varphi)), 0.0, cid)
+        # basis clause: the API variants should be the same tensor in the (R,phi,Z) and (x,y,z) bases
+        E = np.stack([q.normal_cylindrical, q.binormal_cylindrical, q.tangent_cylindrical], axis=1)   # [phi, frame index, cylindrical component]
+        rot = np.einsum('pijk,pia,pjb,pkc->abcp', T, E, E, E)
+        api = q.grad_grad_B_tensor_cylindrical()
+        cs, sn = np.cos(q.phi), np.sin(q.phi)
+        Q = np.zeros((3, 3, q.nphi)); Q[0, 0], Q[0, 1], Q[1, 0], Q[1, 1], Q[2, 2] = cs, -sn, sn, cs, 1
+        rotc = np.einsum('xap,ybp,zcp,abcp->xyzp', Q, Q, Q, rot)
+        apic = q.grad_grad_B_tensor_cartesian()
+        st.check('C10 cylindrical and Cartesian variants are the tensor in the (R,phi,Z) and (x,y,z) bases',
+                 max(np.max(np.abs(api - rot)), np.max(np.abs(apic - rotc))) / np.max(np.abs(rot)), 1e-10, cid)
+        # what the API does guarantee: the Cartesian variant is the phi-rotation of the cylindrical variant
+        st.check('Cartesian variant is the cylindrical variant rotated by phi about Z', np.max(np.abs(apic - np.einsum('xap,ybp,zcp,abcp->xyzp', Q, Q, Q, api))) / np.max(np.abs(api)), 1e-12, cid)
     return st
 
 
